@@ -302,6 +302,17 @@ Theorem C17_blob_push_oneshot_once :
 Proof. exact blob_push_not_replayable. Qed.
 Print Assumptions C17_blob_push_oneshot_once.
 
+(* a cross-repository mount the registry declines (202) falls back to the same POST/PUT
+   protocol with a body read from an io.ReadCloser: the PUT is exactly one request *)
+Theorem C17_mount_fallback_once :
+  forall authc warm0 p cn data sc,
+    match u_put (blob_push_gen authc warm0 p cn (mkBody KOneShot data) sc) with
+    | Some put => length (auth_attempts put) = 1%nat
+    | None => True
+    end.
+Proof. exact mount_fallback_once. Qed.
+Print Assumptions C17_mount_fallback_once.
+
 (* --- cancellation -------------------------------------------------------------- *)
 
 (* context ending at tc, call started at t -- no hypothesis on the policy (MinWait = 0 and zero
